@@ -160,7 +160,11 @@ def handleC17 (inp obs : List String) : Verdict :=
   | some (((init, ops), qs), _), some (o, _) =>
     let s := Lapper.run init ops
     let ivs := s.intervals.toList
-    let stored := if hasMerge ops then ivs else init ++ insertedOf ops
+    -- which value a merged interval carries is not fixed by the property: after a merge intervals are
+    -- compared by (start, stop) only
+    let forget (l : List (Iv Nat)) : List (Iv Nat) := if hasMerge ops then canonIv (l.map (fun iv => { iv with val := 0 })) else l
+    let o := o.map (fun l => l.map (fun (ab : List (Iv Nat) × List (Iv Nat)) => (forget ab.1, forget ab.2)))
+    let stored := if hasMerge ops then forget ivs else init ++ insertedOf ops
     let run := seekAllC s qs 0
     let maxStart := stored.foldl (fun m iv => max m iv.start) 0
     let minStart := stored.foldl (fun m iv => min m iv.start) (stored.headD default).start
@@ -185,7 +189,7 @@ def handleC17 (inp obs : List String) : Verdict :=
         { kind := "specfail", nontrivial, classes,
           detail := s!"query [{q.1},{q.2}): seek = {showIvs sk}; find = {showIvs fd}; overlapping stored = {showIvs t}; queries so far {(qs.takeWhile (· != q)).length}" }
       | none =>
-        let model := run.map (fun r => canonIv r.1)
+        let model := run.map (fun r => forget (canonIv r.1))
         if model != o.map (·.1) then { kind := "diverge", nontrivial, classes, detail := "model seek differs" }
         else { kind := "ok", nontrivial, classes }
   | _, _ => { kind := "badcase", detail := "unparsable C17 case" }
